@@ -330,6 +330,39 @@ def gen_twins(shard):
                         yield ['T', t, ['T', b]]
 
 
+# Set members in an order that is not the sorted one.  The key visit receives for a set member is its position in the
+# enumeration of the set (enumerate(the_set), as the recursive rebuild does): sets of the small leaves 0, 1 happen to
+# iterate in sorted order, sets like {8, 1} / {32, 5, 4} / {16, 3} / {64, 9, 2} do not.  Programs that look at that key
+# (echo; dropkey: drop the members at even / odd positions) tell an enumeration in another order.
+SETORDER_MEMBERS = ((8, 1), (32, 5, 4), (16, 3), (64, 9, 2), (1024, 7), (8, 1, 'a'))
+SETORDER_CONTEXTS = ('root', 'in-list', 'in-dict', 'in-tuple', 'two-sets')
+
+
+def gen_setorder(shard):
+    """shard = ('setorder', context): sets and frozensets of SETORDER_MEMBERS in the context."""
+    context = shard[1]
+    for tag in ('S', 'F'):
+        for members in SETORDER_MEMBERS:
+            t = [tag] + list(members)
+            if context == 'root':
+                yield t
+            elif context == 'in-list':
+                yield ['L', t, 0]
+            elif context == 'in-dict':
+                yield ['D', ['a', t], [0, 1]]
+            elif context == 'in-tuple':
+                yield ['T', 0, t]
+            else:
+                for other in SETORDER_MEMBERS[:3]:
+                    yield ['L', t, ['F'] + list(other)]
+
+
+def setorder_programs(flags, root):
+    out = [{'kind': 'default'}, {'kind': 'research'}, {'kind': 'echo'}, {'kind': 'dropkey', 'parity': 0},
+           {'kind': 'dropkey', 'parity': 1}]
+    return out + _distinct_on(BASIC_TABLES, cells_of(root))
+
+
 # Key aliases: a hashable container (tuple / frozenset) h that is *the same object* as a value somewhere and as a dict
 # key somewhere else.  remap's registry maps id(old container) -> rebuilt container; a key is not an item, the
 # recursive rebuild hands it to visit as it is and takes the key visit returns.
@@ -590,6 +623,16 @@ def make_visit(prog):
             if isinstance(value, CONTAINERS):
                 return True
             return (key, ('P',) + tuple(path) + (key,))
+    elif kind == 'dropkey':
+        # drops the scalar items whose key is an int of the given parity: in a list / tuple / set that is "every other
+        # item in enumeration order" - which member of a set that is depends on the order its members are handed out
+        parity = prog['parity']
+
+        def visit(path, key, value):
+            tick()
+            if isinstance(value, CONTAINERS) or type(key) is not int:
+                return True
+            return key % 2 != parity
     else:
         raise AssertionError(kind)
     return visit
@@ -1139,19 +1182,23 @@ def run(ctx):
         _arm()
         n = arg[0]
         kal = n == 'keyalias'
-        twin = n == 'twin' or kal            # key-alias structures run the programs of a twin structure
+        sord = n == 'setorder'
+        twin = n == 'twin' or kal or sord    # key-alias structures run the programs of a twin structure
         rich = (not twin) and n <= B['rich_keys_upto']
         t = inputs.Tally()
         hangs = 0
         try:
-            for spec in (gen_keyalias(arg) if kal else gen_twins(arg) if twin else gen_roots(arg, rich)):
+            for spec in (gen_setorder(arg) if sord else gen_keyalias(arg) if kal else gen_twins(arg) if twin
+                         else gen_roots(arg, rich)):
                 try:
                     root, flags = build(spec)
                 except Impossible:
                     t.add('terms_not_constructible', 1)
                     continue
                 t.add('structures', 1)
-                if kal:
+                if sord:
+                    t.add('structures_set_order', 1)
+                elif kal:
                     t.add('structures_key_aliases', 1)
                 elif twin:
                     t.add('structures_twins', 1)
@@ -1165,7 +1212,8 @@ def run(ctx):
                     t.add('structures_with_aliasing', 1)
                 nontrivial = bool(flags['refs'] or flags['nested'])
                 snap = snapshot(root) + (render(root),)
-                for prog in (twin_programs(flags, root) if twin else programs(tier, n, flags, root)):
+                for prog in (setorder_programs(flags, root) if sord else twin_programs(flags, root) if twin
+                             else programs(tier, n, flags, root)):
                     case = {'term': spec, 'prog': prog}
                     smp = case if (flags['refs'] and flags['nested'] and prog['kind'] not in ('default', 'research')
                                    and len(t.samples) < 3) else None
@@ -1192,6 +1240,7 @@ def run(ctx):
             'least one back-reference (shared object or cycle)')
     shards = shard_list(sizes) + shard_list(range(1, B['N1'] + 1), voc=1) + [('twin', c) for c in TWIN_CONTEXTS]
     shards += [('keyalias', c) for c in KEYALIAS_CONTEXTS]
+    shards += [('setorder', c) for c in SETORDER_CONTEXTS]
     total = inputs.run_shards(ctx, shard, shards, part='remap+research', rule=rule)
 
     def big_shard(spec):
@@ -1256,6 +1305,10 @@ def run(ctx):
         'structures without set members also run the %d value-kind tables over True, False, "N" (an int key k becomes ~k: '
         'list indexes come back descending) and "W" (a scalar item comes back as (value, key)) that rewrite a key in at '
         'least one cell (container cell: True / "N")' % len(KEY_TABLES))
+    cov['bounds']['set_order'] = (
+        'sets / frozensets of %r (iteration order differs from sorted order) as root, in a list, dict, tuple and next to '
+        'another set; programs default, research, echo, dropkey (members at even / odd enumeration positions dropped) and '
+        'the basic tables; %d structures' % (list(SETORDER_MEMBERS), total.extra.get('structures_set_order', 0)))
     cov['bounds']['twins'] = (
         'every container term t of <= %d nodes (no back-references) as two distinct but equal objects t, t\' - t\' also '
         'with its int leaves turned into the equal bools / floats - in the contexts [t, t\'], (t, t\'), {"a": t, "K": t\'}, '
